@@ -197,6 +197,10 @@ class ApiWorld(ClientWorld):
             if c.fired > 1:
                 self.viol("api", "call-deferred-fired-twice", "call %d (%s) fired %d times" % (c.idx, c.api, c.fired))
             self.judge_call(c)
+            from twisted.python.failure import Failure
+            if isinstance(res, Failure) and kw.get("again_on_failure") and self.close_step is None:
+                # the application retries at once, from inside the errback of the failed call
+                self.do_call(api, spec, dict(kw, again_on_failure=kw["again_on_failure"] - 1))
             return None
         d.addBoth(fired)
 
@@ -416,6 +420,10 @@ class ApiWorld(ClientWorld):
                 if len(brokers) > 1:
                     self.viol("routing", "payload-sent-to-several-brokers",
                               "payload %r of call %d travelled to brokers %r" % (k, c.idx, brokers))
+                if want is None and not group and k[0] in self.meta_view and not self.reacted:
+                    self.viol("routing", "payload-sent-although-current-metadata-names-no-leader:%s" % c.api,
+                              "payload %r of call %d (%s) was sent to broker %r; the latest metadata answer for the "
+                              "topic was %r" % (k, c.idx, c.api, brokers[0], self.meta_view[k[0]]))
                 if want is not None and brokers[0] != want:
                     self.viol("routing", "payload-sent-to-wrong-broker:%s" % c.api,
                               "payload %r of call %d (%s) was sent to broker %r; the latest metadata names %r" % (
@@ -501,6 +509,10 @@ class ApiWorld(ClientWorld):
             return
         key = rk.METADATA if c.api == "metadata" else rk.FIND_COORDINATOR
         end = c.step_fired
+        if res.check(CoordinatorNotAvailable) and any(
+                w[4] == key and c.step <= w[0] <= end and w[7].answered and w[7].answer is not None
+                for w in self.wire):
+            return  # a broker answered the lookup with an error code: not a matter of reaching brokers
         tried_brokers = []
         for w in self.wire:
             if w[4] == key and c.step <= w[0] <= end:
